@@ -45,6 +45,10 @@ var c09Msgs = []c09Msg{
 	// the relay application id with the largest 24-bit command code: as an answer this index is the
 	// closest neighbour of the catch-all's internal key {0xffffffff, 0xffffffff, false}
 	{Priv: true, App: 0xffffffff, Code: 16777215, Short: "XE", OtherApp: 0, OtherCode: 999, OtherName: "XP"},
+	// a private command with a three-letter short name whose first two letters are another
+	// command's short name (the "name of another command" key is CE + R/A)
+	{Priv: true, App: 0, Code: 996, Short: "CEX", OtherApp: 7, OtherCode: 999, OtherName: "CE"},
+	{Priv: true, App: 0, Code: 995, Short: "LONGER", OtherApp: 7, OtherCode: 999, OtherName: "LO"},
 	// a private command the dictionary gives no short name at all (its name key is the bare suffix)
 	{Priv: true, App: 0, Code: 997, Short: "", OtherApp: 7, OtherCode: 999, OtherName: "XP"},
 	// a private command whose short name is not all upper case
@@ -66,6 +70,8 @@ func c09Dict(m c09Msg) *dict.Parser {
 		x := `<?xml version="1.0"?><diameter><application id="0" name="Priv">
 <command code="999" short="XP" name="X-Private"><request><rule avp="P-Note" required="false"/></request><answer><rule avp="P-Note" required="false"/></answer></command>
 <command code="16777215" short="XE" name="X-Experimental"><request><rule avp="P-Note" required="false"/></request><answer><rule avp="P-Note" required="false"/></answer></command>
+<command code="996" short="CEX" name="Capabilities-Extended"><request><rule avp="P-Note" required="false"/></request><answer><rule avp="P-Note" required="false"/></answer></command>
+<command code="995" short="LONGER" name="Long-Short-Name"><request><rule avp="P-Note" required="false"/></request><answer><rule avp="P-Note" required="false"/></answer></command>
 <command code="997" name="No-Short-Name"><request><rule avp="P-Note" required="false"/></request><answer><rule avp="P-Note" required="false"/></answer></command>
 <command code="998" short="Hm" name="Home-Made"><request><rule avp="P-Note" required="false"/></request><answer><rule avp="P-Note" required="false"/></answer></command>
 <command code="280" short="WD" name="Watch-Dog"><request><rule avp="P-Note" required="false"/></request><answer><rule avp="P-Note" required="false"/></answer></command>
@@ -488,7 +494,7 @@ func runC09(ctx *ev.Ctx) {
 	}
 	ctx.Set("histories", hn)
 	ctx.Set("distinct_selected_handlers", len(outcomes)+1)
-	ctx.Rule = "histories: every sequence of <=5 (thorough 6) operations over {register one of the eight keys with a fresh handler, dispatch, dispatch during which the selected handler panics and the caller recovers as the serve loop does (at most once)} ending in a dispatch, replayed on one ServeMux with every dispatch compared with a reference model (map key -> latest handler; index, then name, then catch-all); AND the complete decision table: for 10 message keys (a private command without a short name, one whose short name is mixed-case, application 0xffffffff with command code 2^24-1, base CE, application CC, RA under Gx which redefines it, RA under S6a which resolves through the base dictionary, and three messages carrying a private dictionary whose base application defines a command the default dictionary lacks and names code 280 differently; plus three (application, code) pairs whose command exists only in an application that the AVP parent table - not command lookup - leads to: only the catch-all may see those) x request/answer (the other command flag bits P, E, T and the reserved bits rotate with the case: only R selects; every other message was read off a stream as a different command and had its header rewritten before dispatch): all 2^8 subsets of the registrations {index K, index with other application, other code, other R bit, name of K, name with the other suffix, name of another command, ALL - registered under the name \"ALL\" or under the index ALL_CMD_INDEX, a re-registration using the other spelling}, and every single re-registration of a present key with a second handler; each of these without, before and after a registration under the short name with the case of its letters swapped (no command's name: it must stay inert); the handler that fires and the number of error reports are compared with the reference decision (index, then name, then catch-all, else exactly one report)."
+	ctx.Rule = "histories: every sequence of <=5 (thorough 6) operations over {register one of the eight keys with a fresh handler, dispatch, dispatch during which the selected handler panics and the caller recovers as the serve loop does (at most once)} ending in a dispatch, replayed on one ServeMux with every dispatch compared with a reference model (map key -> latest handler; index, then name, then catch-all); AND the complete decision table: for 12 message keys (private commands with three- and six-letter short names whose first two letters are the 'other command' key, a private command without a short name, one whose short name is mixed-case, application 0xffffffff with command code 2^24-1, base CE, application CC, RA under Gx which redefines it, RA under S6a which resolves through the base dictionary, and three messages carrying a private dictionary whose base application defines a command the default dictionary lacks and names code 280 differently; plus three (application, code) pairs whose command exists only in an application that the AVP parent table - not command lookup - leads to: only the catch-all may see those) x request/answer (the other command flag bits P, E, T and the reserved bits rotate with the case: only R selects; every other message was read off a stream as a different command and had its header rewritten before dispatch): all 2^8 subsets of the registrations {index K, index with other application, other code, other R bit, name of K, name with the other suffix, name of another command, ALL - registered under the name \"ALL\" or under the index ALL_CMD_INDEX, a re-registration using the other spelling}, and every single re-registration of a present key with a second handler; each of these without, before and after a registration under the short name with the case of its letters swapped (no command's name: it must stay inert); the handler that fires and the number of error reports are compared with the reference decision (index, then name, then catch-all, else exactly one report)."
 	ctx.Assume = []string{"exact-index and name registrations are judged for commands the dictionary defines (incoming messages have passed ReadMessage); for undefined commands only the catch-all / error-report rows are judged"}
 }
 
